@@ -19,11 +19,16 @@ resolution (Spec/Scope.lean).
   preserved <og> <sf> <kw> <tree>  does the model's renaming preserve the binding structure (Spec.Scope of the renamed
                                    tree against Spec.Scope of the original, Proofs/ObfRename.lean `bindingPreserved`)
         reply  OK T|F
+  aligned <og> <sf> <kw> <tree>    `alignedOf` (Proofs/ObfBindCond.lean): the decidable agreement of the obfuscator's tables with
+                                   ES5 scoping on the program (hypothesis of `binding_preserved_partial`);  reply OK T|F
+  excluded <og> <tree>             the program is in one of the three recorded deviation classes (Proofs/ObfExcluded.lean);
+                                   reply OK <T|F> <kfA T|F> <kfB T|F> <kfC T|F>
   errors: ERR <PythonExceptionClass|unmodelled|fuel> <detail>,  ERR request …
 
 Paths are written root first as `attr.index/attr.index/…` (the empty path is the empty string).
 -/
-import CalmVerif.Proofs.ObfRename
+import CalmVerif.Proofs.ObfBindCond
+import CalmVerif.Proofs.ObfExcluded
 import CalmVerif.Util.Loop
 open CalmVerif CalmVerif.Unparse CalmVerif.Proto CalmVerif.Obf
 
@@ -151,6 +156,19 @@ def handle (line : String) : String :=
       | .ok fin =>
         if bindingIso fl.obfuscateGlobals (Spec.Scope.resolveProgram tree)
             (Spec.Scope.resolveProgram (renameVal fin [] tree)) then "OK T" else "OK F"
+  | "aligned" :: og :: sf :: kw :: rest =>
+    match parseFlags og sf kw with
+    | none => "ERR request bad flags"
+    | some fl => withTree rest fun tree =>
+      match alignedOf fl tree with
+      | some true => "OK T"
+      | some false => "OK F"
+      | none => "ERR prewalk"
+  | "excluded" :: og :: rest =>
+    if og != "0" && og != "1" then "ERR request bad flags"
+    else withTree rest fun tree =>
+      let b (x : Bool) : String := if x then "T" else "F"
+      "OK " ++ b (excluded (og == "1") tree) ++ " " ++ b (kfA tree) ++ " " ++ b (kfB (og == "1") tree) ++ " " ++ b (kfC tree)
   | "frags" :: rsName :: ind :: og :: sf :: kw :: rest =>
     match findRuleSet rsName, parseIndent ind, parseFlags og sf kw with
     | none, _, _ => "ERR request unknown rule set"
